@@ -119,33 +119,53 @@ theorem tiles_cover (lo hi : Nat) (rs : List (Nat × Nat)) (h : tiles lo rs hi) 
     · obtain ⟨r, hr, hr'⟩ := ih b h3 hb
       exact ⟨r, by simp [hr], hr'⟩
 
+/-- a thread inside the CAS loop of `grow_to_at_least(n)` holds an `old` that passed the loop test `old < n` -/
+def WfTh (t : Th) : Prop :=
+  t.pc = 0 ∨ (t.pc = 1 ∧ ∃ n rest, t.ops = .growTo n :: rest ∧ t.old < n) ∨ (t.pc = 2 ∧ ∃ n rest, t.ops = .growTo n :: rest)
+
 /-- The inductive invariant of the size word. -/
 def Inv (s : St) : Prop :=
   tiles 0 s.log s.size ∧
-  (∀ (tid : Nat) (t : Th), s.ths[tid]? = some t → t.pc < 2 → t.claim = none) ∧
-  (∀ (tid : Nat) (t : Th), s.ths[tid]? = some t → ∀ r, t.claim = some r → r ∈ s.log)
+  (∀ (tid : Nat) (t : Th), s.ths[tid]? = some t → ∀ r ∈ t.claims, r ∈ s.log) ∧
+  (∀ (tid : Nat) (t : Th), s.ths[tid]? = some t → WfTh t)
 
-theorem stepTh_cases (size : Nat) (t : Th) :
-    (stepTh size t).1 = size ∧ (stepTh size t).2.2 = none ∧ (stepTh size t).2.1.claim = t.claim
-      ∧ ((stepTh size t).2.1.pc < 2 → t.pc < 2)
-    ∨ ∃ a b, (stepTh size t).2.2 = some (a, b) ∧ a = size ∧ a < b ∧ (stepTh size t).1 = b
-        ∧ (stepTh size t).2.1.claim = some (a, b) ∧ t.pc < 2 := by
+/-- What one access can do: nothing is handed out and the thread keeps its claims, or exactly the range
+`[size, b)` with `size < b` is handed out, the size becomes `b`, and the thread records that range. -/
+theorem stepTh_cases (size : Nat) (t : Th) (hwf : WfTh t) :
+    (((stepTh size t).1 = size ∧ (stepTh size t).2.2.1 = none ∧ (stepTh size t).2.1.claims = t.claims)
+    ∨ ∃ a b, (stepTh size t).2.2.1 = some (a, b) ∧ a = size ∧ a < b ∧ (stepTh size t).1 = b
+        ∧ (stepTh size t).2.1.claims = (a, b) :: t.claims) ∧ WfTh (stepTh size t).2.1 := by
   unfold stepTh
-  split
-  · right; exact ⟨size, size + 1, rfl, rfl, by omega, rfl, rfl, by omega⟩
-  · split
-    · left; simp
-    · right; exact ⟨size, size + _, rfl, rfl, by omega, rfl, rfl, by omega⟩
-  · split
-    · left; simp
-    · left; simp; omega
-  · split
-    · split
-      · rename_i h1 h2
-        right; exact ⟨t.old, _, rfl, h2.symm, h1, rfl, rfl, by omega⟩
-      · left; simp
-    · left; simp
-  · left; simp
+  rcases hwf with h0 | ⟨h1, n, rest, hops, hlt⟩ | ⟨h2, n, rest, hops⟩
+  · cases hops : t.ops with
+    | nil => exact ⟨Or.inl (by simp), Or.inl h0⟩
+    | cons op rest =>
+      simp only [h0]
+      cases op with
+      | pushBack => exact ⟨Or.inr ⟨size, size + 1, rfl, rfl, by omega, rfl, rfl⟩, Or.inl (by simp [h0])⟩
+      | growBy d =>
+        by_cases hd : d = 0
+        · simp only [hd, ite_true]; exact ⟨Or.inl (by simp), Or.inl (by simp [h0])⟩
+        · simp only [hd, ite_false]; exact ⟨Or.inr ⟨size, size + d, rfl, rfl, by omega, rfl, rfl⟩, Or.inl (by simp [h0])⟩
+      | growTo n =>
+        by_cases hn : n = 0
+        · simp only [hn, ite_true]; exact ⟨Or.inl (by simp), Or.inl (by simp [h0])⟩
+        · simp only [hn, ite_false]
+          by_cases hs : size < n
+          · simp only [hs, ite_true]
+            exact ⟨Or.inl (by simp), Or.inr (Or.inl ⟨rfl, n, rest, rfl, hs⟩)⟩
+          · simp only [hs, ite_false]; exact ⟨Or.inl (by simp), Or.inr (Or.inr ⟨rfl, n, rest, rfl⟩)⟩
+  · simp only [hops, h1]
+    by_cases he : size = t.old
+    · simp only [he, ite_true]
+      exact ⟨Or.inr ⟨t.old, n, rfl, rfl, hlt, rfl, rfl⟩, Or.inl rfl⟩
+    · simp only [he, ite_false]
+      by_cases hs : size < n
+      · simp only [hs, ite_true]
+        exact ⟨Or.inl (by simp), Or.inr (Or.inl ⟨rfl, n, rest, rfl, hs⟩)⟩
+      · simp only [hs, ite_false]; exact ⟨Or.inl (by simp), Or.inr (Or.inr ⟨rfl, n, rest, rfl⟩)⟩
+  · simp only [hops, h2]
+    exact ⟨Or.inl (by simp), Or.inl rfl⟩
 
 theorem inv_step (s : St) (tid : Tid) (h : Inv s) : Inv (step s tid) := by
   unfold step
@@ -154,70 +174,58 @@ theorem inv_step (s : St) (tid : Tid) (h : Inv s) : Inv (step s tid) := by
   | some t =>
     simp only
     obtain ⟨h1, h2, h3⟩ := h
-    have hlt : tid < s.ths.length := by
-      rcases Nat.lt_or_ge tid s.ths.length with h | h
-      · exact h
-      · simp [List.getElem?_eq_none h] at hth
-    rcases stepTh_cases s.size t with ⟨e1, e2, e3, e4⟩ | ⟨a, b, e2, ea, eab, e1, e3, e4⟩
+    have hc := stepTh_cases s.size t (h3 tid t hth)
+    have getset : ∀ (tid' : Nat) (t' : Th), (s.ths.set tid (stepTh s.size t).2.1)[tid']? = some t' →
+        (t' = (stepTh s.size t).2.1) ∨ s.ths[tid']? = some t' := by
+      intro tid' t' ht'
+      rw [List.getElem?_set] at ht'
+      split at ht'
+      · split at ht'
+        · simp at ht'; exact Or.inl ht'.symm
+        · simp at ht'
+      · exact Or.inr ht'
+    obtain ⟨hcase, hwf'⟩ := hc
+    rcases hcase with ⟨e1, e2, e3⟩ | ⟨a, b, e2, ea, eab, e1, e3⟩
     · refine ⟨?_, ?_, ?_⟩
       · simp only [e1, e2]; exact h1
-      · intro tid' t' ht' hpc
-        simp only [List.getElem?_set] at ht'
-        split at ht'
-        · rename_i heq
-          simp at ht'
-          subst ht'
-          rw [e3]; subst heq; exact h2 _ t hth (e4 hpc)
-        · exact h2 tid' t' ht' hpc
       · intro tid' t' ht' r hr
         simp only [e2]
-        simp only [List.getElem?_set] at ht'
-        split at ht'
-        · rename_i heq
-          simp at ht'
-          subst ht'
-          rw [e3] at hr; subst heq; exact h3 _ t hth r hr
-        · exact h3 tid' t' ht' r hr
-    · have hcl : t.claim = none := h2 tid t hth e4
-      refine ⟨?_, ?_, ?_⟩
+        rcases getset tid' t' ht' with rfl | hold
+        · rw [e3] at hr; exact h2 tid t hth r hr
+        · exact h2 tid' t' hold r hr
+      · intro tid' t' ht'
+        rcases getset tid' t' ht' with rfl | hold
+        · exact hwf'
+        · exact h3 tid' t' hold
+    · refine ⟨?_, ?_, ?_⟩
       · simp only [e1, e2]
         exact tiles_append 0 s.size b s.log a b h1 ea eab rfl
-      · intro tid' t' ht' hpc
-        simp only [List.getElem?_set] at ht'
-        split at ht'
-        · rename_i heq
-          simp at ht'
-          subst ht'
-          -- the claiming step always ends with pc = 2
-          exfalso
-          revert hpc e3
-          unfold stepTh
-          split <;> (try split) <;> (try split) <;> simp_all
-        · exact h2 tid' t' ht' hpc
       · intro tid' t' ht' r hr
         simp only [e2]
-        simp only [List.getElem?_set] at ht'
-        split at ht'
-        · rename_i heq
-          simp at ht'
-          subst ht'
-          rw [e3] at hr
-          simp at hr; subst hr; simp
-        · have := h3 tid' t' ht' r hr
-          simp [this]
+        rcases getset tid' t' ht' with rfl | hold
+        · rw [e3] at hr
+          simp at hr
+          rcases hr with rfl | hr
+          · simp
+          · have := h2 tid t hth r hr; simp [this]
+        · have := h2 tid' t' hold r hr; simp [this]
+      · intro tid' t' ht'
+        rcases getset tid' t' ht' with rfl | hold
+        · exact hwf'
+        · exact h3 tid' t' hold
 
-theorem inv_init (ops : List Op) : Inv (sys ops).init := by
+theorem inv_init (progs : List (List Op)) : Inv (sys progs).init := by
   refine ⟨by simp [sys, tiles], ?_, ?_⟩
-  · intro tid t ht _
-    simp [sys, List.getElem?_map] at ht
-    obtain ⟨o, _, rfl⟩ := ht
-    rfl
   · intro tid t ht r hr
     simp [sys, List.getElem?_map] at ht
     obtain ⟨o, _, rfl⟩ := ht
     simp at hr
+  · intro tid t ht
+    simp [sys, List.getElem?_map] at ht
+    obtain ⟨o, _, rfl⟩ := ht
+    exact Or.inl rfl
 
-theorem inv_reachable (ops : List Op) (sched : List Tid) : Inv ((sys ops).run sched) :=
-  Sys.inv_run (sys ops) Inv (inv_init ops) (fun s t h => inv_step s t h) sched
+theorem inv_reachable (progs : List (List Op)) (sched : List Tid) : Inv ((sys progs).run sched) :=
+  Sys.inv_run (sys progs) Inv (inv_init progs) (fun s t h => inv_step s t h) sched
 
 end TbbVerif.C11
